@@ -153,6 +153,12 @@ func (a *baseAction) saveWebhookResult(run flows.Run, step flows.Step, name stri
 
 // helper to apply a contact modifier
 func (a *baseAction) applyModifier(run flows.Run, mod flows.Modifier, logModifier flows.ModifierCallback, logEvent flows.EventCallback) bool {
+	// a session can be started without a contact, in which case there is nothing to modify
+	if run.Contact() == nil {
+		logEvent(events.NewErrorf("can't modify the contact in a session without a contact"))
+		return false
+	}
+
 	logModifier(mod)
 
 	s := run.Session()
